@@ -39,6 +39,9 @@ enum Ev {
     Never,
     AdvMinus1,
     AdvTo,
+    /// half a keep-alive period passes, then association a's outstation sends an unsolicited
+    /// response (empty): reception counts as link activity
+    Unsolicited(usize),
 }
 
 #[derive(Clone, Debug, PartialEq)]
@@ -81,7 +84,15 @@ fn poll_groups() -> [u8; 2] {
     [30, 1]
 }
 
-fn build_alphabet(n: usize) -> Vec<Ev> {
+fn build_alphabet(n: usize, keep_alive: bool) -> Vec<Ev> {
+    let mut v = build_alphabet_inner(n);
+    if keep_alive {
+        v.push(Ev::Unsolicited(0));
+    }
+    v
+}
+
+fn build_alphabet_inner(n: usize) -> Vec<Ev> {
     let mut v = vec![Ev::Respond, Ev::AdvTo, Ev::Submit(0), Ev::AddPoll(0, 1), Ev::Never, Ev::AdvMinus1, Ev::RespondLate, Ev::Demand(0), Ev::SubmitCmd(0), Ev::SubmitDoomed(0)];
     if n >= 2 {
         v.push(Ev::Submit(1));
@@ -148,6 +159,7 @@ impl Scenario for C19 {
         let mut writes = 0usize;
         // requests that vanish when started (no clock): they never constrain anything themselves
         let mut doomed: std::collections::HashSet<u32> = std::collections::HashSet::new();
+        let mut uns_seq = 0u8;
         *sim.clock.base_ms.lock().unwrap() = None;
 
         for &i in path {
@@ -235,6 +247,21 @@ impl Scenario for C19 {
                         if let Work::Poll(p) = &o.work {
                             let per = m[o.a].polls[*p].period;
                             m[o.a].polls[*p].due = deadline + per;
+                        }
+                    }
+                }
+                Ev::Unsolicited(a) => {
+                    if out.is_none() && m.iter().all(|x| x.users.is_empty()) {
+                        if let Some(k) = self.keep_alive {
+                            // stay clear of every deadline: the step only delivers the fragment
+                            let target = t_before + k / 2;
+                            let clear = self.earliest_deadline(&m).map(|d| d > target).unwrap_or(true);
+                            if clear {
+                                sim.advance(k / 2);
+                                uns_seq = (uns_seq + 1) & 0x0F;
+                                sim.respond_from(addr(*a), &app::response(0xF0 | uns_seq, 130, 0, 0, &[]));
+                                m[*a].last_activity = sim.k.now_ms();
+                            }
                         }
                     }
                 }
@@ -351,11 +378,11 @@ impl Scenario for C19 {
                     }
                     Work::Poll(p) => {
                         // S2: user requests go ahead of polls
-                        if m[a].users.iter().any(|x| !doomed.contains(x)) {
+                        if let Some(b) = (0..self.n).find(|b| m[*b].users.iter().any(|x| !doomed.contains(x))) {
                             v = Some(Violation::new(
                                 "C19.S2b",
                                 "poll-ahead-of-pending-user-request",
-                                format!("association {a}: poll written at t={tw} while user requests {:?} are pending", m[a].users),
+                                format!("association {a}: poll written at t={tw} while user requests {:?} of association {b} are pending", m[b].users),
                             ));
                             break;
                         }
@@ -454,7 +481,7 @@ impl Scenario for C19 {
 }
 
 fn scenarios(tier: &str) -> Vec<C19> {
-    let mk = |n: usize, keep_alive: Option<u64>, depth: usize| C19 { n, keep_alive, depth, alphabet: build_alphabet(n) };
+    let mk = |n: usize, keep_alive: Option<u64>, depth: usize| C19 { n, keep_alive, depth, alphabet: build_alphabet(n, keep_alive.is_some()) };
     if tier == "quick" {
         vec![mk(1, None, 5), mk(2, None, 5), mk(2, Some(4 * T), 5), mk(3, None, 4)]
     } else {
@@ -479,7 +506,7 @@ pub fn check(tier: &str) -> i32 {
     }
     c.finish(
         "model_checking",
-        "1..3 associations on one channel, keep-alive off / 4T, every history up to depth 4-5 (5-7 thorough) over 9-13 events (submit a user READ or command on association a, add a poll with period kT, demand a poll, prompt reply, reply 1 ms before the response timeout, no reply, advance to 1 ms before / exactly the earliest deadline the monitor predicts) on the real MasterTask with a virtual clock; the monitor checks every request written: at most one outstanding per channel, user requests in submission order and ahead of polls, polls never before completion + period and written as soon as they are due on an idle channel, associations with waiting user requests take turns, link status requests only after the keep-alive silence, the master future is not polled while the clock advances to 1 ms before the earliest deadline and at most 200 times per event; non-trivial = at least two requests were written; distinct = distinct observation trace",
+        "1..3 associations on one channel, keep-alive off / 4T, every history up to depth 4-5 (5-7 thorough) over 9-13 events (submit a user READ or command on association a, add a poll with period kT, demand a poll, prompt reply, reply 1 ms before the response timeout, no reply, advance to 1 ms before / exactly the earliest deadline the monitor predicts, an unsolicited fragment received half a keep-alive period into the silence) on the real MasterTask with a virtual clock; the monitor checks every request written: at most one outstanding per channel, user requests in submission order and ahead of the polls of every association on the channel, polls never before completion + period and written as soon as they are due on an idle channel, associations with waiting user requests take turns, link status requests only after the keep-alive silence, the master future is not polled while the clock advances to 1 ms before the earliest deadline and at most 200 times per event; non-trivial = at least two requests were written; distinct = distinct observation trace",
         &["start-up tasks are off here (their ordering is C17's subject)", "T = 2 s, response timeout 1 s"],
         serde_json::json!({}),
     )
